@@ -53,6 +53,9 @@ enum Op {
     /// soft_reset_out whose event the session task takes off its channel but does not handle
     /// before the next sync: the refresh then walks a RIB that is AHEAD of the changes queued behind it
     SoftResetOutQueued,
+    /// from now until the next sync the session task handles no peer event (it parks at the event
+    /// gate with the first one in hand): everything queues up behind it in the channel
+    HoldEvents,
     /// the daemon is a restarting speaker: selection deferral starts before the first route (RFC 4724 §4.1)
     StartDeferral,
     EndDeferral,
@@ -78,6 +81,7 @@ fn op_name(o: &Op) -> String {
         Op::DropStale { src } => format!("stale_purge({})", s(src)),
         Op::SoftResetOut => "soft_reset_out".into(),
         Op::SoftResetOutQueued => "soft_reset_out(handled only at the next sync)".into(),
+        Op::HoldEvents => "session_stops_handling_events(until the next sync)".into(),
         Op::StartDeferral => "selection_deferral_starts".into(),
         Op::EndDeferral => "selection_deferral_ends".into(),
         Op::RouteRefresh => "route_refresh(from neighbour)".into(),
@@ -490,6 +494,7 @@ impl Model for PipeModel {
             Op::SoftResetOut | Op::SoftResetOutQueued => "soft_reset_out",
             Op::RouteRefresh => "route_refresh",
             Op::PolicySwap => "policy_swap",
+            Op::HoldEvents => "hold_events",
             Op::StartDeferral => "deferral_start",
             Op::EndDeferral => "deferral_end",
             Op::ConnectHeld => "session_up",
@@ -559,6 +564,22 @@ impl Model for PipeModel {
                 sys.policy_pending_reset = false;
                 sys.dirty = true;
             }
+            Op::HoldEvents => {
+                let key = Arc::as_ptr(&sys.d.tables) as usize;
+                if sys.conn.is_none() || sys.ev_held || crate::verif::gate::parked(key, OBS) {
+                    return false;
+                }
+                // everything queued so far is handled first (when an event is handled matters where
+                // the handler reads the policy or the RIB), then the gate is armed
+                if !sys.rt.block_on(sys.conn.as_mut().unwrap().barrier()) {
+                    sys.dead = true;
+                    out.push(("C01/observer-session-lost".into(), "hold: the session ended".into()));
+                    return true;
+                }
+                crate::verif::gate::arm(key + crate::verif::gate::EVENTS, OBS);
+                sys.ev_held = true;
+                sys.dirty = true;
+            }
             Op::SoftResetOutQueued => {
                 let key = Arc::as_ptr(&sys.d.tables) as usize;
                 if sys.conn.is_none() || sys.ev_held || crate::verif::gate::parked(key, OBS) {
@@ -586,7 +607,9 @@ impl Model for PipeModel {
                 sys.dirty = true;
             }
             Op::RouteRefresh => {
-                if sys.conn.is_none() || crate::verif::gate::parked(Arc::as_ptr(&sys.d.tables) as usize, OBS) {
+                // (while peer events are held the socket is still served until the first event arrives:
+                // when a ROUTE-REFRESH would be handled is then not a harness choice - not offered)
+                if sys.conn.is_none() || sys.ev_held || crate::verif::gate::parked(Arc::as_ptr(&sys.d.tables) as usize, OBS) {
                     return false;
                 }
                 let conn = sys.conn.as_mut().unwrap();
@@ -756,7 +779,7 @@ impl Model for PipeModel {
             }
         }
         if !matches!(o, Op::Sync) && sys.conn.is_some() {
-            if matches!(o, Op::SoftResetOut | Op::SoftResetOutQueued | Op::RouteRefresh | Op::ConnectHeld | Op::PolicySwap) {
+            if matches!(o, Op::SoftResetOut | Op::SoftResetOutQueued | Op::RouteRefresh | Op::ConnectHeld | Op::PolicySwap | Op::HoldEvents) {
                 if matches!(o, Op::SoftResetOutQueued) {
                     sys.unsynced.push("held".to_string());
                 }
@@ -923,6 +946,15 @@ fn models(thorough: bool) -> Vec<PipeModel> {
             ops.push(Op::Withdraw { src: 0, pfx: 0 });
             ops.push(Op::EndDeferral);
         }
+        // several events of different kinds waiting in the session's channel at once
+        if pack == "held" {
+            ops.clear();
+            ops.push(Op::Announce { src: 0, pfx: 1, attr: 1, nh: 0 });
+            ops.push(Op::Announce { src: 1, pfx: 0, attr: 0, nh: 1 });
+            ops.push(Op::Withdraw { src: 0, pfx: 1 });
+            ops.push(Op::PolicySwap);
+            ops.push(Op::HoldEvents);
+        }
         if pack == "ahead" {
             ops.clear();
             ops.push(Op::Announce { src: 0, pfx: 1, attr: 1, nh: 0 });
@@ -954,6 +986,7 @@ fn models(thorough: bool) -> Vec<PipeModel> {
         mk("c01-ibgp-addpath2-late", ObsRole::Ibgp, 2, 1, "late"),
         mk("c01-ibgp-refresh-ahead", ObsRole::Ibgp, 1, 1, "ahead"),
         mk("c01-ebgp-restart-2shards", ObsRole::Ebgp, 1, 2, "restart"),
+        mk("c01-ebgp-held-queue", ObsRole::Ebgp, 1, 1, "held"),
     ];
     if thorough {
         v.push(mk("c01-ebgp-addpath2", ObsRole::Ebgp, 2, 1, "multi"));
